@@ -57,6 +57,7 @@ def baseline_compare(junit):
 
 
 def verify(d, checks=None, tier="quick", tests=True):
+    d = os.path.abspath(d)
     meta = json.load(open(os.path.join(d, "meta.json")))
     pid = meta["property"]
     checks = checks or [pid]
